@@ -26,12 +26,18 @@ Proof.
   apply or_else_safe; [apply H|exact IH].
 Qed.
 
-Lemma unwind_safe d path m y op : (forall x, safe (op x)) -> safe (unwind d path m y op).
+Lemma leaf_match_safe op v : (forall x, safe (op x)) -> safe (leaf_match op v).
 Proof.
-  intro H. unfold unwind. destruct (All d path true m) as [value multi].
-  assert (Hd : safe (if negb multi || y then op value else Ok false))
-    by (destruct (negb multi || y); [apply H|exact I]).
-  destruct value; try exact Hd. apply first_ok_safe; assumption.
+  intro H. unfold leaf_match. destruct v; try apply H. apply first_ok_safe; [exact H|apply H].
+Qed.
+
+Lemma unwind_safe d path y op : (forall x, safe (op x)) -> safe (unwind d path y op).
+Proof.
+  intro H. unfold unwind. destruct (All d path true false) as [value multi].
+  destruct multi; [|apply leaf_match_safe; exact H].
+  assert (Hd : safe (if y then op value else Ok false)) by (destruct y; [apply H|exact I]).
+  destruct value; try exact Hd.
+  apply first_ok_safe; [intro x; apply leaf_match_safe; exact H|exact Hd].
 Qed.
 
 Lemma kw_loop_safe f l : (forall k kv, safe (f k kv)) -> safe (kw_loop f l).
@@ -62,7 +68,7 @@ Lemma match_in_safe d path v : safe (match_in d path v).
 Proof. apply unwind_safe. apply in_test_safe. Qed.
 
 Lemma match_exists_safe d path v : safe (match_exists d path v).
-Proof. unfold match_exists. destruct (All d path true true). exact I. Qed.
+Proof. unfold match_exists. destruct (All d path true false). exact I. Qed.
 
 Lemma resolve_type_safe v : safe (resolve_type v).
 Proof. unfold resolve_type. brk. Qed.
@@ -71,7 +77,7 @@ Lemma match_type_safe d path v : safe (match_type d path v).
 Proof.
   unfold match_type.
   assert (H : forall l, safe (match mapM resolve_type l with
-                             | Ok rs => unwind d path true false
+                             | Ok rs => unwind d path false
                                           (type_test (existsb fst rs)
                                              (map snd (filter (fun r => negb (fst r)) rs)))
                              | Err => Err | Panic => Panic | OutOfFuel => OutOfFuel
@@ -94,7 +100,7 @@ Proof. unfold size_arg. brk. Qed.
 Lemma match_size_safe d path v : safe (match_size d path v).
 Proof.
   unfold match_size. apply safe_match_prop; [apply size_arg_safe|].
-  intro size. destruct (All d path false false) as [value multi]. brk.
+  intro size. destruct (All d path true false) as [value multi]. brk.
 Qed.
 
 Lemma mod_operand_safe v : safe (mod_operand v).
